@@ -29,7 +29,7 @@ type c10trace struct {
 var c10units = []struct {
 	name string
 	d    time.Duration
-}{{"ns", time.Nanosecond}, {"us", time.Microsecond}, {"ms", time.Millisecond}, {"s", time.Second}}
+}{{"ns", time.Nanosecond}, {"us", time.Microsecond}, {"ms", time.Millisecond}, {"s", time.Second}, {"m", time.Minute}, {"h", time.Hour}}
 
 // offsets: sorted, starting at 0, hitting every boundary -1/0/+1 plus random points
 func c10offsets(c *ctx, bounds []int, total, extra int) []int {
@@ -228,6 +228,26 @@ func init() {
 				d = 1 + c.rng.Intn(4)
 			}
 			w.write(runC10Ramp(c, unit, s, e, d, 5+c.rng.Intn(40)))
+		}
+		// (4) long profiles with large targets: stages of minutes and hours (soak tests), targets up to 10^6
+		for k := 0; k < n/3; k++ {
+			unit := 4 + c.rng.Intn(2)
+			maxT := []int{2000, 200_000, 1_000_000}[c.rng.Intn(3)]
+			maxD := 400_000_000 / maxT / 2
+			if maxD > 2000 {
+				maxD = 2000
+			}
+			ns := 1 + c.rng.Intn(4)
+			st := make([][2]int, ns)
+			for i := range st {
+				st[i] = [2]int{1 + c.rng.Intn(maxD/ns+1), c.rng.Intn(maxT + 1)}
+			}
+			w.write(runC10Staged(c, unit, st, 20+c.rng.Intn(40)))
+			s0, e0 := c.rng.Intn(maxT+1), c.rng.Intn(maxT+1)
+			if s0 == e0 {
+				e0 = s0 + 1
+			}
+			w.write(runC10Ramp(c, unit, s0, e0, 1+c.rng.Intn(maxD), 20+c.rng.Intn(40)))
 		}
 		fmt.Println("c10 traces:", w.n)
 		return nil
